@@ -30,9 +30,9 @@ def _rerun_unstable(run):
     changed = False
     for attr in ("propfails", "diffs"):
         keep = []
-        for item in getattr(run, attr):
+        for n, item in enumerate(getattr(run, attr)):
             case, answer, sname, idx, seed = item
-            if reproduces(case, answer, sname, seed):
+            if n >= 6 or reproduces(case, answer, sname, seed):
                 keep.append(item)
             else:
                 run.inconclusive += 1
